@@ -152,7 +152,9 @@ def tree_hash(variant_key, harness=None):
     repo = os.environ.get("VERIF_REPO", "/repo")
     hd = os.path.join(verif, "harness")
     files = _walk(os.path.join(repo, "src")) + [os.path.join(repo, "Cargo.toml"), os.path.join(repo, "Cargo.lock"),
-             os.path.join(verif, "vlib", "overlay.py"), os.path.join(verif, "vlib", "shapes.py")]
+             os.path.join(verif, "vlib", "overlay.py")]
+    if harness is None or re.match(r"dir_(rm|ins|look)_", harness):
+        files.append(os.path.join(verif, "vlib", "shapes.py"))  # generates the tree-shape instances
     # mods.rs only lists the harness modules: adding one does not change any other harness's verdict
     common = sorted(f for f in os.listdir(hd) if f.endswith(".rs") and not f.startswith("h_") and f != "mods.rs")
     files += [os.path.join(hd, f) for f in common]
